@@ -64,6 +64,8 @@ var rewriteShapes = []string{
 	// loops that can consume a newline in front of an end anchor: only \z is unconditional, `$` (end or before a final
 	// newline; every line end under Multiline) and \Z need a loop that cannot take the newline
 	`\s*$`, `a\s*$`, `^\s*$\n`, `\n*$\n\nx`, `[^ab]*$\nc`, `(\s*)$`, `\W+$`, `[\s,]+$`, `\s*\Z`, `\n*\Z`, `[^a]*\z`, `\s+$\s`, `a\n*$\nb`, `[^ab]*$`, `\s*?$`, `(?>\s*)$`, `\n+$`,
+	// atomic alternations matched right to left (RightToLeft option, lookbehind): a literal branch is then matched from its LAST character
+	`(?>cq|xa|cxa)`, `(?<=(?>cq|(x)a|cxa))$`, `(?<=b(?>cq|xa|cxa))$`, `(?>ab|cb|acb)`, `(?<=(?>ab|b|cab))x`, `(?>a|ba|ca|bca)$`,
 	`(?<a-b>x|(?<b>x))`, `(?=(?<a-b>x|(?<b>x)))x`, `a(?<a-b>(?<b>x)*?|x)`, `(?>(?<a-b>x*?|(?<b>x)))`, `(?<b>a)?(?<a-b>x|(?<b>x))c?`, `(?<a-b>(?:x|(?<b>x))+?)`, `(?<b>a)(?<-b>x*)x`,
 }
 
